@@ -872,27 +872,21 @@ theorem inv08_get {c : Conn α} (hw : Inv c) (h : Inv08 c) (hdr : Hdr) (ver : Ve
         split
         · exact inv08_statusEx hw h _ _ h.npos
         · rename_i items hitems
-          simp only [replayItems, hst, if_true] at hitems
-          split at hitems
-          · cases hitems
-          · cases hlog : c.store hdr.sid with
-            | none => rw [hlog] at hitems; cases hitems
-            | some log =>
-              rw [hlog] at hitems; simp at hitems; subst hitems
-              have hfn : hdr.from ≤ log.length ∧ ∀ i, hdr.from ≤ i → log[i]? ≠ some none := by
-                cases hdr with
-                | none =>
-                  refine ⟨by simp [Hdr.from], ?_⟩
-                  intro i _ hi
-                  exact (h.shape 0 log i hlog hi).2 rfl
-                | bad => exact absurd rfl ‹_›
-                | ok sid idx =>
-                  have := hsc log hlog
-                  refine ⟨by simp [Hdr.from]; omega, ?_⟩
-                  intro i hi hn
-                  have := (h.shape sid log i hlog hn).1
-                  simp [Hdr.from] at hi; omega
-              exact inv08_getGo hw h _ _ _ _ log hlog hfn.1 hfn.2 hnatt
+          obtain ⟨_, log, hlog, _, rfl⟩ := replayItems_some hst hitems
+          · have hfn : hdr.from ≤ log.length ∧ ∀ i, hdr.from ≤ i → log[i]? ≠ some none := by
+              cases hdr with
+              | none =>
+                refine ⟨by simp [Hdr.from], ?_⟩
+                intro i _ hi
+                exact (h.shape 0 log i hlog hi).2 rfl
+              | bad => exact absurd rfl ‹_›
+              | ok sid idx =>
+                have := hsc log hlog
+                refine ⟨by simp [Hdr.from]; omega, ?_⟩
+                intro i hi hn
+                have := (h.shape sid log i hlog hn).1
+                simp [Hdr.from] at hi; omega
+            exact inv08_getGo hw h _ _ _ _ log hlog hfn.1 hfn.2 hnatt
 
 /-! ### every label in scope -/
 
@@ -948,6 +942,7 @@ theorem step_cfg (c : Conn α) (l : Label α) : (step c l).cfg = c.cfg := by
         · split <;> simp [emit]
         · rfl
   | «end» => rfl
+  | evict sid n => rfl
 
 theorem inv08_step {c : Conn α} (hw : Inv c) (h : Inv08 c) (hst : c.cfg.hasStore = true) (l : Label α)
     (hsc : InScope c l) : Inv08 (step c l) := by
@@ -962,6 +957,7 @@ theorem inv08_step {c : Conn α} (hw : Inv c) (h : Inv08 c) (hst : c.cfg.hasStor
   | get hdr ver budget => exact inv08_get hw h _ _ _ hst hsc
   | sclose req retry => exact inv08_sclose hw h _ _
   | «end» => exact ⟨h.npos, h.shape, h.ex_lt, h.seg, h.aligned⟩
+  | evict sid n => exact ⟨h.npos, h.shape, h.ex_lt, h.seg, h.aligned⟩
 
 theorem inv08_run (cfg : Cfg) (hst : cfg.hasStore = true) (ls : List (Label α)) (hsc : InScopeRun (init cfg) ls) :
     Inv08 (run (init cfg) ls) := by
